@@ -240,7 +240,7 @@ def check(run, driver):
         data = make_data(info, rng, n, T)
         if info == "poisson" or it % 4 == 0 or it < 5:
             data = np.round(data * (1 if info == "poisson" else (50 if it < 5 else 4)))   # integer-valued numbers: int and float presentations exist
-        if info in ("knn", "geometric_knn") and it < 10:
+        if info == "geometric_knn" and it < 10:
             # tie-free integers (per-column ranks, in units of 3): the neighbour estimators are defined there, and integers are integers
             data = (np.argsort(np.argsort(make_data(info, rng, n, T), axis=0), axis=0) * 3 + 1).astype(float)
         kw = dict(method=method, information=info, max_lag=int(rng.integers(1, 3)), n_shuffles=6, alpha_forward=0.1, alpha_backward=0.1, k_means=3)
@@ -270,6 +270,27 @@ def check(run, driver):
             elif g != ref[1]:
                 run.prop_fail("the same numbers presented differently give different graphs", case, {"clause": "presentation", "estimator": info, "presentation": name}, {ref[0]: ref[1], name: g})
         run.case("presentation", [info, method, n, T, float(data[0, 0])], bool(ref and ref[1]), sample={"information": info, "method": method, "presentations": list(pres), "result": ref[1][:3] if ref else None})
+    # ---- (iii-b) integers are integers: the neighbour estimators on integer-valued data, tie-free (per-column ranks) and coarse with many
+    #      ties, under a LASSO and an oCSE selection -- float64 / int64 / nested lists of ints / integer frame must give one graph
+    for info, variant, method in (("geometric_knn", "ranks", "lasso"), ("knn", "ranks", "lasso"), ("knn", "ties", "standard"), ("knn", "ties", "alternative"),
+                                  ("knn", "ranks", "standard"), ("geometric_knn", "ranks", "information_lasso")):
+        n = 2; T = 28 if info == "geometric_knn" else 48
+        base = make_data(info, rng, n, T)
+        data = (np.argsort(np.argsort(base, axis=0), axis=0) * 3 + 1).astype(float) if variant == "ranks" else np.round(base * 3)
+        kw = dict(method=method, information=info, max_lag=1, n_shuffles=6, alpha_forward=0.2, alpha_backward=0.2, k_means=3)
+        pres = {"float64": data.copy(), "int64": data.astype(np.int64), "nested-int-lists": data.astype(np.int64).tolist(),
+                "dataframe-int": pd.DataFrame(data.astype(np.int64), columns=["X0", "X1"]), "int32-F": np.asfortranarray(data.astype(np.int32))}
+        ref = None
+        case = {"information": info, "method": method, "integer_data": variant, "kw": kw, "data": data}
+        for name, arg in pres.items():
+            with quiet():
+                g = graph_repr(discover_network(arg, **kw))
+            if ref is None:
+                ref = (name, g)
+            elif g != ref[1]:
+                run.prop_fail("the same integer-valued numbers presented as integers and as floats give different graphs", case,
+                              {"clause": "presentation", "estimator": info, "presentation": name}, {ref[0]: ref[1], name: g}); break
+        run.case("presentation-integers", [info, variant, method, float(data[0, 0])], bool(ref and ref[1]), sample={"information": info, "method": method, "integer_data": variant, "result": ref[1][:3] if ref else None})
     run.assumptions += [
         "a pure model cannot exhibit hidden state: the theorems are thin by design and the history-differential tie decides the property",
         "NumPy's Generator is a deterministic function of its seed (trusted)",
